@@ -884,6 +884,12 @@ def rt_cases(prop):
             # the graph is edited between two runs of the same scheduler (a requirement is added: c now waits for b)
             S('top', [J('a'), J('b', duration=3), J('c')], [(2, 0)], rerun=True, rerun_edge=['top', 2, 1]),
             S('top', [J('a'), J('b', duration=3), J('c'), J('d')], [(1, 0), (3, 2)], rerun=True, rerun_edge=['top', 2, 1], window=2),
+            # verbose schedulers whose shutdown handlers outlive shutdown_timeout, flat and nested
+            S('top', [J('a', shutdown_duration=3), J('b')], shutdown_timeout=0.125, verbose=True),
+            S('top', [S('in', [J('x', shutdown_duration=3)], shutdown_timeout=0.125), J('b', duration=2)], verbose=True),
+            # the window is edited between two runs of the same scheduler
+            S('top', [J('a'), J('b'), J('c'), J('d')], [], window=1, rerun=True, rerun_window=3),
+            S('top', [J('a'), J('b'), J('c'), J('d')], [], window=3, rerun=True, rerun_window=1),
             # a tolerated failure first, a critical one later, along chains of critical / non-critical schedulers
             S('top', [S('n1', [S('n2', [J('t', outcome='raise'), J('x', duration=2, critical=True, outcome='raise')],
                                  critical=True)], critical=True), J('y', duration=5)], critical=True),
@@ -909,6 +915,8 @@ def rt_cases(prop):
                 sp['salt'] = str(r2.randrange(1000))       # another set iteration order
             if i % 5 == 2:
                 sp['watch'] = True                         # a Watch shared by the tree (display aid: changes nothing)
+            if i % 6 == 1:
+                sp['verbose'] = True                       # verbose schedulers (messages only)
             flat = all(m['type'] == 'job' for m in sp['members'])
             if i % 4 == 3 and prop not in ('C06', 'C10', 'C13') and (prop != 'C14' or flat):
                 # the same tree run a second time ("in any run of any scheduler"); the second run is judged.
@@ -924,6 +932,11 @@ def rt_cases(prop):
                 if free and r2.random() < 0.5:
                     a, b_ = r2.choice(free)
                     sp['rerun_edge'] = ['top', a, b_]      # and one more requirement added between the two runs
+                if r2.random() < 0.4 and prop in ('C03', 'C07', 'C12', 'C01', 'C02'):
+                    # and/or the window edited between the runs (kept larger than the number of members that may
+                    # never end, as admissibility for C03 demands)
+                    never = sum(1 for m_ in sp['members'] if m_.get('forever') or m_['type'] == 'sched')
+                    sp['rerun_window'] = r2.choice([None] + [w_ for w_ in (1, 2, 3, 4) if w_ > never])
             if prop == 'C06':
                 sp2, flipped = RT.c06_pair(sp, r2)
                 if flipped:
